@@ -86,6 +86,7 @@ func (s *seqState) applyLoad(op *Op, res *Result, vis *mEntry, base []string, lo
 		if s.stale(vis) {
 			m.Probes["reload:"+plan.Kind]++
 			s.checkCalls(op, loads, []expCall{{reload: true, keys: []int{k}, olds: map[int]int{k: oldV}}})
+			s.loaderRuns(op)
 			switch plan.Kind {
 			case "val":
 				m.loadOK++
@@ -108,6 +109,7 @@ func (s *seqState) applyLoad(op *Op, res *Result, vis *mEntry, base []string, lo
 	m.misses++
 	m.Probes["load:"+plan.Kind]++
 	s.checkCalls(op, loads, []expCall{{keys: []int{k}}})
+	s.loaderRuns(op)
 	switch plan.Kind {
 	case "val":
 		m.loadOK++
@@ -142,6 +144,7 @@ func (s *seqState) bulkPhase(op *Op, keys []int, reload bool) (supplied map[int]
 	plan := planOf(op)
 	ph := s.phase
 	s.phase++
+	s.loaderRuns(op)
 	inCall := map[int]bool{}
 	for _, k := range keys {
 		inCall[k] = true
@@ -180,7 +183,7 @@ func (s *seqState) bulkPhase(op *Op, keys []int, reload bool) (supplied map[int]
 			if reload {
 				s.pendLoadRemove(k) // a reload that does not find the key removes the entry
 			} else {
-				s.pending = append(s.pending, &subOp{k: k, remove: true, fromCall: true, optional: true})
+				s.pending = append(s.pending, &subOp{now: s.m.now, k: k, remove: true, fromCall: true, optional: true})
 			}
 			continue
 		}
@@ -202,7 +205,7 @@ func (s *seqState) bulkPhase(op *Op, keys []int, reload bool) (supplied map[int]
 		m.Probes["bulk-extra"]++
 		v := r.valFor(op, k, ph)
 		supplied[k] = v
-		s.pending = append(s.pending, &subOp{k: k, v: v, kind: "set", volunteered: true})
+		s.pending = append(s.pending, &subOp{now: s.m.now, k: k, v: v, kind: "set", volunteered: true})
 	}
 	return supplied, false
 }
@@ -316,6 +319,7 @@ func (s *seqState) applyRefresh(op *Op, res *Result, vis *mEntry, base []string,
 	if vis != nil {
 		m.Probes["refresh-present:"+plan.Kind]++
 		s.checkCalls(op, loads, []expCall{{reload: true, keys: []int{k}, olds: map[int]int{k: vis.V}}})
+		s.loaderRuns(op)
 		switch plan.Kind {
 		case "val":
 			m.loadOK++
@@ -333,6 +337,7 @@ func (s *seqState) applyRefresh(op *Op, res *Result, vis *mEntry, base []string,
 	} else {
 		m.Probes["refresh-absent:"+plan.Kind]++
 		s.checkCalls(op, loads, []expCall{{keys: []int{k}}})
+		s.loaderRuns(op)
 		switch plan.Kind {
 		case "val":
 			m.loadOK++
